@@ -88,6 +88,40 @@ impl Check for C15 {
         .with_lookaheads(60)
         .with_modes(3);
         let mut modes = gen::gen_modes(d, &p);
+        if d.chance(6) {
+            // sizes: deep nesting, long literal runs, many alternatives, many modes
+            let mi = d.below(modes.len());
+            let pi = d.below(modes[mi].pats.len());
+            let base = modes[mi].pats[pi].rx.clone();
+            modes[mi].pats[pi].rx = match d.below(4) {
+                0 => {
+                    let mut r = base;
+                    for _ in 0..*d.pick(&[17usize, 33, 65, 100]) {
+                        r = Rx::Group(Box::new(r), *d.pick(&[rx::GroupKind::Capture, rx::GroupKind::NonCapture]));
+                    }
+                    r
+                }
+                1 => {
+                    let n = *d.pick(&[255usize, 256, 257, 300]);
+                    Rx::Concat((0..n).map(|i| Rx::Lit(if i % 2 == 0 { 'a' } else { 'b' }, rx::LitForm::Verbatim)).collect())
+                }
+                2 => {
+                    let n = *d.pick(&[17usize, 65, 130]);
+                    let wide = gen::wide_alphabet();
+                    Rx::Alt((0..n).map(|i| Rx::Lit(wide[i % wide.len()], rx::LitForm::Verbatim)).collect())
+                }
+                _ => base,
+            };
+            if d.chance(64) {
+                let extra = *d.pick(&[13usize, 16, 17, 30]);
+                for k in 0..extra {
+                    let mut m = modes[0].clone();
+                    m.name = format!("X{}", k);
+                    m.transitions.clear();
+                    modes.push(m);
+                }
+            }
+        }
         let kind = d.weighted(&[2, 5, 5]);
         let kind_name = ["supported", "token_string", "planted"][kind];
         let mut extra = json!({ "kind": kind_name });
